@@ -138,6 +138,7 @@ fn path_for(c: &Value) -> String {
 
 fn finish(res: Result<(), Box<dyn std::error::Error>>, path: &str, read: impl FnOnce(&str) -> Value, keep: bool) -> Value {
     match res {
+        Ok(()) if keep => json!({"ok": true, "file_exists": std::path::Path::new(path).exists()}), // error-path case: never read back
         Ok(()) => {
             let mut v = read(path);
             v["ok"] = json!(true);
